@@ -262,17 +262,17 @@ Proof. vm_compute. repeat split; try reflexivity. repeat (apply Forall_cons; [si
 (** Link with C13.  [Sample.sample_quantiles] calls [elfi.methods.utils.weighted_sample_quantile];
     the model of that function used above ([Results.quantile], over [Qc]) and the C13 model of the
     same function ([Quantile.wsq], over [Q], Num/Quantile.v) return the same result on the same
-    numbers ([this : Qc -> Q]), [None] in the same cases: always without weights; with weights when
-    they have the length of the sample and do not sum to zero (or alpha = 0).  Outside this domain
-    the two models differ ([C16_quantile_C13_differs]).  Proofs: Proofs/C16_C13_Link.v. *)
+    numbers ([this : Qc -> Q]), [None] in the same cases, for ALL samples, levels and weights:
+    [Results.quantile] makes the checks of the Python code in the order of the Python code
+    (alpha = 0 first, without reading the weights; the lengths; the zero weight sum).
+    The definition used before ([Results.quantile_old]: length check first, [w / 0 = 0]) is the
+    same function on every well-formed input ([C16_quantile_unchanged_on_wf]), so the values of
+    [agree] / [ok] on recorded well-formed inputs are those obtained with it.
+    Proofs: Proofs/C16_C13_Link.v, Proofs/C16_Results.v section 9. *)
 From Elfi Require Num.Quantile Proofs.C13_Quantile Proofs.C16_C13_Link.
 
 Theorem C16_quantile_is_C13_quantile :
   forall (x : list Qc) (alpha : Qc) (w : option (list Qc)),
-    match w with
-    | Some w => length w = length x /\ (sumq w <> 0 \/ alpha = 0)
-    | None => True
-    end ->
     option_map this (quantile x alpha w)
     = Quantile.wsq (map this x) (this alpha) (option_map (map this) w).
 Proof. exact C16_C13_Link.quantile_is_wsq. Qed.
@@ -281,10 +281,41 @@ Print Assumptions C16_quantile_is_C13_quantile.
 (** ... and on any rationals equal to the weights (not only their canonical forms) *)
 Theorem C16_quantile_is_C13_quantile_gen :
   forall (x : list Qc) (alpha : Qc) (w : list Qc) (wq : list Q),
-    Forall2 (fun a b => (this a == b)%Q) w wq -> length w = length x -> (sumq w <> 0 \/ alpha = 0) ->
+    Forall2 (fun a b => (this a == b)%Q) w wq ->
     option_map this (quantile x alpha (Some w)) = Quantile.wsq (map this x) (this alpha) (Some wq).
 Proof. exact C16_C13_Link.quantile_wsq_gen. Qed.
 Print Assumptions C16_quantile_is_C13_quantile_gen.
+
+(** the statement of [C16_quantile_is_C13_quantile] before [quantile] was aligned (it needed this
+    hypothesis then); a special case now *)
+Theorem C16_quantile_is_C13_quantile_on_dom :
+  forall (x : list Qc) (alpha : Qc) (w : option (list Qc)),
+    match w with
+    | Some w => length w = length x /\ (sumq w <> 0 \/ alpha = 0)
+    | None => True
+    end ->
+    option_map this (quantile x alpha w)
+    = Quantile.wsq (map this x) (this alpha) (option_map (map this) w).
+Proof. intros x alpha w _. apply C16_C13_Link.quantile_is_wsq. Qed.
+Print Assumptions C16_quantile_is_C13_quantile_on_dom.
+
+(** equal lengths and a non-zero weight sum, or no weights: [quantile] computes exactly what the
+    former definition computed ... *)
+Theorem C16_quantile_unchanged_on_wf :
+  forall (x : list Qc) (alpha : Qc) (w : option (list Qc)),
+    match w with Some w => length w = length x /\ sumq w <> 0 | None => True end ->
+    quantile x alpha w = quantile_old x alpha w.
+Proof. exact C16_Results.quantile_unchanged_on_wf. Qed.
+Print Assumptions C16_quantile_unchanged_on_wf.
+
+(** ... and the two differ only where the former definition was not the Python code *)
+Theorem C16_quantile_changed_only_off_wf :
+  forall (x : list Qc) (alpha : Qc) (w : list Qc),
+    quantile x alpha (Some w) <> quantile_old x alpha (Some w) ->
+    (alpha = 0 /\ length w <> length x)
+    \/ (alpha <> 0 /\ length w = length x /\ sumq w = 0 /\ length x <> 1%nat).
+Proof. exact C16_Results.quantile_changed_only_off_wf. Qed.
+Print Assumptions C16_quantile_changed_only_off_wf.
 
 (** wrong length and alpha <> 0: both fail *)
 Theorem C16_quantile_C13_mismatch :
@@ -294,15 +325,26 @@ Theorem C16_quantile_C13_mismatch :
 Proof. exact C16_C13_Link.quantile_wsq_mismatch. Qed.
 Print Assumptions C16_quantile_C13_mismatch.
 
-(** the inputs on which the two models differ: zero-sum weights on two or more samples (C13, like
-    numpy, selects no row: every normalised weight is nan; [Qc] has [w / 0 = 0] and the largest value
-    is returned), and weights of the wrong length with alpha = 0 (C13, like the Python code, never
-    looks at the weights then; this model checks the length first) *)
-Example C16_quantile_C13_differs :
-  (option_map this (quantile [q 1; q 2] (Q2Qc (1 # 2)) (Some [q 0; q 0])) = Some 2%Q
-   /\ Quantile.wsq [1; 2]%Q (1 # 2)%Q (Some [0; 0]%Q) = None)
-  /\ (option_map this (quantile [q 2; q 1] (q 0) (Some [q 1])) = None
-      /\ Quantile.wsq [2; 1]%Q 0%Q (Some [1]%Q) = Some 1%Q).
+(** zero weight sum, alpha <> 0, not exactly one value: both fail (numpy: every normalised weight is nan) *)
+Theorem C16_quantile_C13_zero_sum :
+  forall x alpha w, sumq w = 0 -> length x <> 1%nat -> alpha <> 0 ->
+    quantile x alpha (Some w) = None
+    /\ Quantile.wsq (map this x) (this alpha) (Some (map this w)) = None.
+Proof. exact C16_C13_Link.quantile_wsq_zero_sum. Qed.
+Print Assumptions C16_quantile_C13_zero_sum.
+
+(** regression: the inputs on which the former definition differed from the C13 model (and from the
+    Python code): zero-sum weights on two or more samples ([quantile_old]: [w / 0 = 0] in [Qc], the
+    largest value; numpy: nan weights, IndexError), and weights of the wrong length with alpha = 0
+    ([quantile_old]: length check first; the Python code never looks at the weights then).
+    Both models now agree there. *)
+Example C16_quantile_C13_agree :
+  (option_map this (quantile [q 1; q 2] (Q2Qc (1 # 2)) (Some [q 0; q 0])) = None
+   /\ Quantile.wsq [1; 2]%Q (1 # 2)%Q (Some [0; 0]%Q) = None
+   /\ option_map this (quantile_old [q 1; q 2] (Q2Qc (1 # 2)) (Some [q 0; q 0])) = Some 2%Q)
+  /\ (option_map this (quantile [q 2; q 1] (q 0) (Some [q 1])) = Some 1%Q
+      /\ Quantile.wsq [2; 1]%Q 0%Q (Some [1]%Q) = Some 1%Q
+      /\ option_map this (quantile_old [q 2; q 1] (q 0) (Some [q 1])) = None).
 Proof. vm_compute. repeat split; reflexivity. Qed.
 
 (** C13_quantile_spec, for this model: with non-negative weights of positive sum and alpha in
@@ -330,10 +372,15 @@ Print Assumptions C16_quantile_scale_invariant.
 
 (** the reported quantiles of an object ([so_quantiles o alpha = quantiles_of (so_samples o) (so_weights o) alpha])
     are, column by column, weighted sample quantiles in the C13 sense, and do not depend on the
-    scale of the weights *)
+    scale of the weights.
+    The hypothesis for alpha = 0 (columns of the length of the weights) was added when [quantile]
+    was aligned with the Python code: without it the statement held only because the former
+    definition checked the length of the weights before looking at alpha, so that success implied
+    [length w = length col]; the Python code does not read the weights when alpha = 0. *)
 Theorem C16_quantiles_inequalities :
   forall (s : dict) (w : list Qc) (alpha : Qc) (qs : list (string * Qc)),
     Forall (fun v => 0 <= v) w -> 0 < sumq w -> 0 <= alpha -> alpha <= 1 ->
+    (alpha = 0 -> Forall (fun kv => length (snd kv) = length w) s) ->
     quantiles_of s (Some w) alpha = Some qs ->
     length qs = length s
     /\ forall j k v, nth_error qs j = Some (k, v) ->
